@@ -145,6 +145,9 @@ func main() {
 		usage()
 	}
 	opts := &RunOpts{Tier: "quick", Timeout: 10 * time.Second, Workers: runtime.NumCPU(), Repo: "/repo", Verif: "/verif", Cover: true}
+	if n, err := strconv.Atoi(os.Getenv("GOVC_WORKERS")); err == nil && n > 0 {
+		opts.Workers = n
+	}
 	if t := os.Getenv("VERIF_TIER"); t == "quick" || t == "thorough" {
 		opts.Tier = t
 	}
@@ -172,6 +175,7 @@ func main() {
 	}
 	if opts.Tier == "thorough" {
 		opts.Thorough = true
+		thoroughShapes = true
 		opts.Timeout = 60 * time.Second
 	}
 	defer cleanupScratch()
@@ -444,9 +448,36 @@ func buildReport(id string, w *World, opts *RunOpts, results []*FuncResult, all 
 	rep.lines = append(rep.lines, extra.Lines...)
 	knownSeen = append(knownSeen, extra.KnownIDs...)
 	// failures
+	// known findings that name a whole obligation (no carve-out): the obligation
+	// belongs to a scenario contract written for the finding and is expected to
+	// fail; the finding's end-to-end witness is what is replayed on every run.
+	wholeKnown := map[string]*Finding{}
+	for _, f := range opts.Findings {
+		if f.Kind == "known" && f.Obligation != "" && f.Carve == "" && hasTag(strings.Split(f.Property, ","), id) {
+			wholeKnown[f.Obligation] = f
+			fails := false
+			present := false
+			for _, n := range named {
+				if n.Name == f.Obligation {
+					present = true
+					fails = len(n.Failed) > 0
+				}
+			}
+			if present && !fails {
+				rep.lines = append(rep.lines, fmt.Sprintf("note: known finding %s: obligation %s now holds; entry is stale", f.ID, f.Obligation))
+			}
+		}
+	}
 	for _, n := range failedNamed {
 		if n.Kind == "canary" {
 			continue // stale known finding, reported above
+		}
+		if f, ok := wholeKnown[n.Name]; ok {
+			if f.Witness == "" { // with a witness the line comes from its end-to-end replay
+				rep.lines = append(rep.lines, fmt.Sprintf("KNOWN-FINDING: property=%s %s [%s; obligation %s fails (%d of %d queries)]", id, f.Text, f.ID, n.Name, len(n.Failed), len(n.Queries)))
+				knownSeen = append(knownSeen, f.ID)
+			}
+			continue
 		}
 		// order candidate models: few havoc symbols, small numbers first
 		cands := append([]*Oblig{}, n.Failed...)
